@@ -25,7 +25,7 @@ CTL = re.compile(r"^babylon::CompactEnumerableThreadLocal<.*>$")
 
 DEPENDS = {
     "C04": "the per-thread slots live in a ConcurrentVector",
-    "C14": "slots are addressed by ThreadId",
+    "C14": ("slots are addressed by ThreadId", "all"),
 }
 
 def units(tier):
